@@ -1058,8 +1058,10 @@ func runEPB(c *Case) {
 	}
 	// the endpoint has noticed: its serve loop is in the deferred clean-up,
 	// waiting for the dial handlers
+	// (with nobody parked the clean-up has nothing to wait for and is over
+	// at once: there is no window, the accept loop simply runs into the end)
 	seen := 0
-	for t0 := time.Now(); time.Since(t0) < waitBound && seen < 2; time.Sleep(time.Millisecond) {
+	for t0 := time.Now(); c.Parked > 0 && time.Since(t0) < waitBound && seen < 2; time.Sleep(time.Millisecond) {
 		if countFrame(frameServeExit) > exitBase {
 			seen++
 		} else {
